@@ -15,7 +15,9 @@ def seeds_of(pfx_field, addr_field, defaults):
     for f in (pfx_field, addr_field):
         if f == "-":
             continue
-        items = defaults[f] if f in defaults else f.split(";")
+        items = []
+        for it in f.split(";"):
+            items += defaults[it] if it in defaults else [it]
         for n in items:
             a, l = n.split("/")
             out.append(format(int(a), "032b")[: int(l)])
@@ -78,7 +80,10 @@ def in_net(x, n):
 def nets_of(field):
     if field == "-":
         return []
-    return DEFAULTS[field] if field in DEFAULTS else field.split(";")
+    out = []
+    for item in field.split(";"):
+        out += DEFAULTS[item] if item in DEFAULTS else [item]
+    return out
 
 
 def is_mask_ref(x):
